@@ -133,8 +133,12 @@ def gen_param(r, rich=True, p_typ=0.85, p_doc=0.85):
 F_TYPS = ["int", "str", "float", "bool", "Optional[int]", "Optional[str]", "Optional[bool]", "List[str]", "List[int]",
           "Literal['alpha', 'beta']", "Literal['read only', 'read write']", "Union[int, float]", "Union[int, str]", "np.ndarray", None]  # fmt: skip
 F_DOCS = ["plain", None, "comma", "optional-prefix", "two-sentences"]
-F_DEFS = ["absent", "none", "zero", "nonzero", "code"]
+F_DEFS = ["absent", "none", "zero", "nonzero", "code", "negative"]
 F_SIZE = len(F_TYPS) * len(F_DOCS) * len(F_DEFS) * 3
+# the walk advances by a stride coprime to the grid size (a prime): any stretch of a few hundred calls samples every
+# axis of the grid evenly, instead of covering a contiguous block (which left whole type shapes out of a quick run)
+F_STRIDE = 479
+assert F_SIZE % F_STRIDE != 0
 _focus = {"i": None}
 P_FOCUS = 0.35
 
@@ -161,12 +165,13 @@ def _focus_shape(r, i, p_typ, p_doc):
         f["default"] = None
     elif dk == "code":
         f["default"] = r.choice(["```n```", "```x```", "```(1, 2)```", "```foo(1)```", "```np.zeros(3)```"])
-    elif dk in ("zero", "nonzero"):
+    elif dk in ("zero", "nonzero", "negative"):
         z = dk == "zero"
+        neg = dk == "negative"
         if b == "int":
-            f["default"] = 0 if z else r.choice([5, -3, 1])
+            f["default"] = 0 if z else -3 if neg else r.choice([5, -3, 1])
         elif b == "float":
-            f["default"] = 0.0 if z else r.choice([0.5, -1.5, 1.0])
+            f["default"] = 0.0 if z else -1.5 if neg else r.choice([0.5, -1.5, 1.0])
         elif b == "bool":
             f["default"] = not z
         elif b == "str":
@@ -179,9 +184,9 @@ def _focus_shape(r, i, p_typ, p_doc):
         elif typ == "List[int]":
             f["default"] = "```[]```" if z else "```[1, 2]```"
         elif typ == "Union[int, float]":
-            f["default"] = 0 if z else 1.5
+            f["default"] = 0 if z else -2 if neg else 1.5
         elif typ == "Union[int, str]":
-            f["default"] = 0 if z else r.choice([-7, 3, "auto", -0.5])
+            f["default"] = 0 if z else r.choice([-7, -0.5]) if neg else r.choice([-7, 3, "auto", -0.5])
         else:
             f["default"] = "```[]```" if z else "```['a']```"
     return pos, f
@@ -196,7 +201,7 @@ def focus_ir(r, p_typ=0.85, p_doc=0.85, returns=True):
     """
     if _focus["i"] is None:
         _focus["i"] = r.randrange(F_SIZE)
-    i = _focus["i"] = (_focus["i"] + 1) % F_SIZE
+    i = _focus["i"] = (_focus["i"] + F_STRIDE) % F_SIZE
     names = r.sample(NAMES, 3)
     if r.random() < 0.5:
         # three enumerated entries at once (entries are converted independently of each other): strides apart so that
